@@ -477,8 +477,8 @@ VARIANTS = [
             "            for value in node.values:\n                result = literal_value(value)\n                if not result:\n                    return result\n",
             "            for value in node.values:\n                result = literal_value(value)\n                if result:\n                    return result\n", "R15.5"),
     Variant("consumer-drops-handler", "FIRE", "fixes",
-            "        try:\n            value = core.literal_value(node.test)\n        except ValueError:\n            continue\n\n        if isinstance(node, ast.While) and not value:",
-            "        value = core.literal_value(node.test)\n\n        if isinstance(node, ast.While) and not value:", "R15.2"),
+            "        try:\n            value = core.literal_value(node.test)\n        except ValueError:\n            continue\n\n        if isinstance(node, ast.While) and not value and not node.orelse:",
+            "        value = core.literal_value(node.test)\n\n        if isinstance(node, ast.While) and not value and not node.orelse:", "R15.2"),
     Variant("consumer-yields-on-unknown", "FIRE", "fixes",
             "            try:\n                deterministic_value = core.literal_value(value)\n            except ValueError:\n                mask.append(unknown)",
             "            try:\n                deterministic_value = core.literal_value(value)\n            except ValueError:\n                mask.append(unknown)\n                yield value, None", "R15.4"),
@@ -505,8 +505,8 @@ VARIANTS = [
     Variant("table-eq-as-lambda", "SILENT", "constants", "    ast.Eq: operator.eq,\n", "    ast.Eq: lambda a, b: a == b,\n"),
     Variant("table-reordered", "SILENT", "constants", "    ast.Eq: operator.eq,\n    ast.NotEq: operator.ne,\n", "    ast.NotEq: operator.ne,\n    ast.Eq: operator.eq,\n"),
     Variant("consumer-catches-more", "SILENT", "fixes",
-            "        try:\n            value = core.literal_value(node.test)\n        except ValueError:\n            continue\n\n        if isinstance(node, ast.While) and not value:",
-            "        try:\n            value = core.literal_value(node.test)\n        except (ValueError, TypeError):\n            continue\n\n        if isinstance(node, ast.While) and not value:"),
+            "        try:\n            value = core.literal_value(node.test)\n        except ValueError:\n            continue\n\n        if isinstance(node, ast.While) and not value and not node.orelse:",
+            "        try:\n            value = core.literal_value(node.test)\n        except (ValueError, TypeError):\n            continue\n\n        if isinstance(node, ast.While) and not value and not node.orelse:"),
 ]
 
 META = {
